@@ -75,6 +75,12 @@ import (
 // from the PT..S string of the datagram by the check itself. Part entity0: AddFunctionType(heartbeat) and the
 // heartbeat calls on entity [0], which has no heartbeat manager, each history in a child process; only "no panic".
 
+// First use (x_c16_firstuse.go, parts firstuse / firstuse-race): no other part lets the goroutines of the quantifier be the
+// FIRST to touch the heartbeat of an entity - the manager used to be fetched once during the setup and every call was made
+// on that object. There, and in the conc cases with a concurrent AddFunctionType and every second row of seq (c16Env.perCall),
+// every call asks the entity for the manager at the moment it is made; stream goroutines are attributed to entity [1]
+// unless they belong to the second entity's manager (not: only if they belong to the object fetched at the setup).
+
 // 150ms and 1.25s are not multiples of the 0.1s resolution of the announced xs:duration: the announced timeout
 // (PT0.1S, PT1.2S) is then shorter than the configured Go value, and the period is judged against the announced one
 // exactly 2s is the last timeout whose period is not shortened (period 2s), 2.1s the first one that is (period 0.1s)
@@ -96,6 +102,10 @@ func init() {
 			"in every second generated history of seq a second healthy peer subscribes while the heartbeat runs and must receive every refresh built after its subscription returned; " +
 			"conc: 4-8 goroutines with 3-6 Start/Stop/IsRunning calls each - in case index%4 = 1|3 the AddFunctionType that creates and starts the heartbeat is one of these calls (the others begin with StartHeartbeat), in 2|3 one or two RemoveEntity calls are among them -, cyclic rendezvous of two or jitter at Heartbeat.stop.afterCheck and Heartbeat.start.afterStop, then a final sequential call that makes the expectation exact, " +
 			"then (periods <= 300 ms) 2-8 trials of Stop, Start and restarting Start, and finally (all periods) RemoveEntity, each called while 4-8 other goroutines query IsHeartbeatRunning in a tight loop (bounded; they have ended before the checkpoint judges: after Stop/RemoveEntity no live stream and no refresh beyond the one in flight, after Start exactly one stream; a query that returned before the call began must report the state the preceding checkpoint established, one that began after the call returned the state the call produces - ordered through an atomic phase flag -, queries overlapping the call are only counted); " +
+			"firstuse (plain and -race): the FIRST heartbeat calls an entity ever sees come from 2-4 goroutines at once, for 40 (thorough 80; -race 16/32) fresh entities per case, timeouts 0.1, 0.15 and 2.1 s: exactly one goroutine calls AddFunctionType(heartbeat), each of the others one of IsHeartbeatRunning / StopHeartbeat / StartHeartbeat (through entity.HeartbeatManager() at the moment of the call) / RemoveEntity; nothing asks the entity for its heartbeat manager before. " +
+			"Release of a group (in turn): 'convoy' = the entity's mutex is held, let go and taken again at once (2-3 rounds) by a lookup of the harness that is parked inside Type() of a feature implementation of its own, while the calls arrive in a seeded order (add first / last / anywhere) - calls that take this mutex queue up for more than a millisecond and then go through their locked steps in lockstep -, 'spin' = one flag plus a seeded skew, 'chan' = a closed channel. Then sequentially an optional StartHeartbeat or IsHeartbeatRunning and a closing StopHeartbeat or RemoveEntity (in a quarter of the entities only after the first wait). " +
+			"Judged on logged order: no panic; IsHeartbeatRunning after the group (if nothing in it stops), after the sequential start and after the closing call; after the closing call returned at most one more refresh in the function data (counter right after the return vs. after 4 periods and again after 8) and unchanged content for an unchanged counter; non-trivial = every entity of the case was judged and no stream goroutine was left at the end. " +
+			"In the conc cases whose AddFunctionType is one of the concurrent calls, and in every second row of seq, the case never keeps the manager of entity [1]: every call asks the entity for it (nothing asks before the first call of the history), and every stream goroutine that does not belong to the second entity's manager counts as a stream of entity [1], whichever manager object runs it. " +
 			"slowtap: Stop issued while a refresh is being written by a writer that is slower than the period; in four further cases (periods 300 and 500 ms) the observed subscriber's connection holds one notification for period + 2.1..2.5 s without any call being made, and the refreshes that follow must carry current timestamps; nofeature: histories that start the heartbeat although no DeviceDiagnosis heartbeat function was added, each in a child process; entity0: six histories of AddFunctionType(heartbeat) (readable / not readable), the HeartbeatManager calls (if a manager is handed out), AddEntity and RemoveEntity on the DeviceDiagnosis server feature of the device's entity [0] and of an entity [0] created by the application, each in a child process, judged for 'no panic' only (one control history without the heartbeat function). " +
 			"A case is non-trivial if at least one running checkpoint (refreshes judged) and one stopped checkpoint (silence judged) were decided without a watchdog expiry. distinct = (timeout, operation sequence, hook policy).",
 		Assumptions: []string{
@@ -112,12 +122,17 @@ func init() {
 			"the rendezvous at the two Start/Stop windows lies inside a mutex on the current tree: it expires (counted as window_closed) and is never judged",
 			"'a current timestamp' after a blocked notification: a stream builds refresh k+1 after the write of notification k returned (same goroutine), so its timestamp must not be older than the harness clock reading taken when that write was complete, minus 0.5 s (the stack rounds to whole seconds) minus 1 s tolerance (signature timestamp/older-than-the-end-of-the-previous-notification; judged for every pair of consecutive notifications of one stream in every part). The comparison is one-sided and causal (delays only make the timestamp later); it is skipped when the harness's own sampler was more than 500 ms late around that moment",
 			"IsHeartbeatRunning is an operation of the quantifier: other goroutines querying the state while Stop, Start or RemoveEntity run must not change what those calls achieve; the answers of queries that provably ended before the call began or began after it returned are judged against the decided state, those overlapping the call are only counted",
+			"the calls of the quantifier are made the way the API offers them: entity.HeartbeatManager().X() at the moment of the call (parts firstuse, conc with a concurrent AddFunctionType, every second row of seq) as well as on a manager object kept since the setup (the rest). 'An entity's heartbeat' is whatever refreshes the heartbeat data of that entity's DeviceDiagnosis feature: after StopHeartbeat (on the manager the entity hands out) or RemoveEntity returned, the data must stay unchanged whichever object produced the refreshes",
+			"part firstuse: holding the entity's mutex (through a feature implementation whose Type() parks while the entity's own lookup calls it) only forces an interleaving of calls that take this mutex; it is never judged, and on a tree whose heartbeat calls do not take it the calls simply run. A first use guarded by a lock the harness cannot reach is only met by the unforced 'spin' / 'chan' groups (no hit in 6400 such groups on a loaded machine for a 2-statement window)",
 			"histories that call StartHeartbeat before an effective AddFunctionType run in a child process, because the stream goroutine of the current tree dereferences a nil feature at its first tick and takes the process down (reported as heartbeat/start-without-feature-panics)",
 		},
 		Parts: []rig.Part{
 			{Name: "seq", Run: c16Seq, Workers: 32, Chunk: 1, Procs: 2, Quiet: 120 * time.Second, Cases: func(t rig.Tier) int { return map[rig.Tier]int{rig.Quick: 54, rig.Thorough: 432}[t] }},
 			{Name: "conc", Run: c16Conc, Workers: 20, Chunk: 1, Procs: 4, Quiet: 120 * time.Second, Cases: func(t rig.Tier) int { return map[rig.Tier]int{rig.Quick: 16, rig.Thorough: 140}[t] }},
 			{Name: "conc-race", Race: true, Run: c16Conc, Workers: 16, Chunk: 1, Procs: 4, Quiet: 180 * time.Second, Cases: func(t rig.Tier) int { return map[rig.Tier]int{rig.Quick: 8, rig.Thorough: 48}[t] }},
+			// the first heartbeat calls of fresh entities arrive from several goroutines at once (x_c16_firstuse.go)
+			{Name: "firstuse", Run: c16FirstUse, Workers: 8, Chunk: 1, Procs: 4, Quiet: 120 * time.Second, Cases: func(t rig.Tier) int { return map[rig.Tier]int{rig.Quick: 8, rig.Thorough: 32}[t] }},
+			{Name: "firstuse-race", Race: true, Run: c16FirstUse, Workers: 4, Chunk: 1, Procs: 4, Quiet: 180 * time.Second, Cases: func(t rig.Tier) int { return map[rig.Tier]int{rig.Quick: 4, rig.Thorough: 12}[t] }},
 			{Name: "slowtap", Run: c16SlowTap, Workers: 12, Chunk: 1, Procs: 2, Quiet: 120 * time.Second, Cases: func(t rig.Tier) int { return map[rig.Tier]int{rig.Quick: 6 + 4, rig.Thorough: 16 + 12}[t] }},
 			{Name: "nofeature", Run: c16NoFeature, Workers: 8, Chunk: 1, Procs: 2, Quiet: 120 * time.Second, Cases: func(t rig.Tier) int { return map[rig.Tier]int{rig.Quick: 6, rig.Thorough: 12}[t] }},
 			// run only as a child process of a nofeature case
@@ -337,11 +352,15 @@ type c16Late struct {
 }
 
 type c16Env struct {
-	c       *rig.Ctx
-	w       *rig.World
-	ent     *spine.EntityLocal
-	dd      api.FeatureLocalInterface
-	hm      api.HeartbeatManagerInterface
+	c   *rig.Ctx
+	w   *rig.World
+	ent *spine.EntityLocal
+	dd  api.FeatureLocalInterface
+	hm  api.HeartbeatManagerInterface // nil if perCall
+	// perCall: the case never keeps the heartbeat manager of entity [1]; every call asks the entity for it at the
+	// moment it is made (entity.HeartbeatManager().X(), as an application does), and nothing asks before the first
+	// call of the history does
+	perCall bool
 	tap     *c16Tap
 	h       *rig.Hooks
 	timeout time.Duration
@@ -350,6 +369,7 @@ type c16Env struct {
 
 	mu         sync.Mutex
 	streams    map[int64]*c16Stream
+	managers   map[any]int // manager objects that ran a stream of entity [1] (hook record)
 	pendingPer map[int64]time.Duration
 	periods    []time.Duration
 	calls      []c16Call
@@ -384,6 +404,7 @@ type c16Env struct {
 // late = a second healthy peer is connected that subscribes later (c16Env.lateSubscribe).
 type c16Opt struct {
 	peer, mute, unadded bool
+	perCall             bool // see c16Env.perCall
 	twin                []uint
 	twinTimeout         time.Duration
 	late                bool
@@ -395,7 +416,7 @@ func newC16Env(c *rig.Ctx, timeout time.Duration, withPeer bool) *c16Env {
 
 func newC16EnvOpt(c *rig.Ctx, timeout time.Duration, opt c16Opt) *c16Env {
 	withPeer := opt.peer && !opt.unadded
-	e := &c16Env{c: c, timeout: timeout, period: timeout, start: time.Now(), streams: map[int64]*c16Stream{}, pendingPer: map[int64]time.Duration{},
+	e := &c16Env{c: c, timeout: timeout, period: timeout, start: time.Now(), streams: map[int64]*c16Stream{}, managers: map[any]int{}, pendingPer: map[int64]time.Duration{},
 		tap: &c16Tap{entered: make(chan struct{}, 1)}, stopSample: make(chan struct{})}
 	if timeout > 2*time.Second {
 		e.period = timeout - 2*time.Second
@@ -407,7 +428,10 @@ func newC16EnvOpt(c *rig.Ctx, timeout time.Duration, opt c16Opt) *c16Env {
 		e.ent = e.w.AddEntity(model.EntityTypeTypeCEM, []uint{1}, timeout)
 	}
 	e.dd = e.ent.GetOrAddFeature(model.FeatureTypeTypeDeviceDiagnosis, model.RoleTypeServer)
-	e.hm = e.ent.HeartbeatManager()
+	e.perCall = opt.perCall
+	if !e.perCall {
+		e.hm = e.ent.HeartbeatManager()
+	}
 	e.srcA, e.dstA = rkKey(e.dd.Address()), rkKey(rig.FA("dev0", []uint{1}, 1))
 	e.tap.shareSrc = e.srcA // before the connection exists; never changed afterwards
 	if len(opt.twin) > 0 && withPeer {
@@ -437,13 +461,16 @@ func newC16EnvOpt(c *rig.Ctx, timeout time.Duration, opt c16Opt) *c16Env {
 		s := rig.Seq()
 		e.mu.Lock()
 		defer e.mu.Unlock()
+		// every stream goroutine of this process that does not belong to the second entity's manager is a heartbeat
+		// stream of entity [1] - whichever manager object runs it (the world has no other entity with a heartbeat)
 		switch {
-		case obj == any(e.hm):
-			e.streams[g] = &c16Stream{Goid: g, Enter: s, Period: e.pendingPer[g]}
-			e.periods = append(e.periods, e.pendingPer[g])
 		case e.tw != nil && obj == any(e.tw.hm):
 			e.tw.streams[g] = &c16Stream{Goid: g, Enter: s, Period: e.pendingPer[g]}
 			e.tw.periods = append(e.tw.periods, e.pendingPer[g])
+		default:
+			e.streams[g] = &c16Stream{Goid: g, Enter: s, Period: e.pendingPer[g]}
+			e.periods = append(e.periods, e.pendingPer[g])
+			e.managers[obj]++
 		}
 	})
 	e.h.On("Heartbeat.stream.exit", func(obj any) {
@@ -452,12 +479,12 @@ func newC16EnvOpt(c *rig.Ctx, timeout time.Duration, opt c16Opt) *c16Env {
 		e.mu.Lock()
 		defer e.mu.Unlock()
 		switch {
-		case obj == any(e.hm):
-			if st := e.streams[g]; st != nil {
-				st.Exit = s
-			}
 		case e.tw != nil && obj == any(e.tw.hm):
 			if st := e.tw.streams[g]; st != nil {
+				st.Exit = s
+			}
+		default:
+			if st := e.streams[g]; st != nil {
 				st.Exit = s
 			}
 		}
@@ -714,7 +741,7 @@ func (e *c16Env) close() {
 		close(e.stopSample)
 	}
 	e.sampleWG.Wait()
-	rig.Guard(10*time.Second, func() { e.hm.StopHeartbeat() })
+	rig.Guard(10*time.Second, func() { e.mgr().StopHeartbeat() })
 	if e.tw != nil {
 		rig.Guard(10*time.Second, func() { e.tw.hm.StopHeartbeat() })
 		rig.WaitFor(5*time.Second, func() bool { return e.twinLive() == 0 })
@@ -749,6 +776,15 @@ func (e *c16Env) live() int {
 }
 
 func (e *c16Env) counter() (uint64, bool) { return c16CounterOf(e.dd) }
+
+// mgr is the heartbeat manager of entity [1] as the case reaches it: the object kept since the setup, or (perCall)
+// whatever the entity hands out now.
+func (e *c16Env) mgr() api.HeartbeatManagerInterface {
+	if e.perCall {
+		return e.ent.HeartbeatManager()
+	}
+	return e.hm
+}
 
 // dataJSON renders the whole heartbeat data of entity [1] (counter, timestamp, timeout).
 func (e *c16Env) dataJSON() string {
@@ -815,13 +851,13 @@ func (e *c16Env) call(op, by string) (res string) {
 		case "add-unreadable":
 			e.dd.AddFunctionType(model.FunctionTypeDeviceDiagnosisHeartbeatData, false, false)
 		case "start":
-			if err := e.hm.StartHeartbeat(); err != nil {
+			if err := e.mgr().StartHeartbeat(); err != nil {
 				res = "error: " + err.Error()
 			}
 		case "stop":
-			e.hm.StopHeartbeat()
+			e.mgr().StopHeartbeat()
 		case "isrunning":
-			res = fmt.Sprint(e.hm.IsHeartbeatRunning())
+			res = fmt.Sprint(e.mgr().IsHeartbeatRunning())
 		case "remove":
 			e.w.Local.RemoveEntity(e.ent)
 		}
@@ -928,7 +964,7 @@ func (e *c16Env) checkpointRunning(op string, s int64, v0 uint64, v0ok bool, sub
 		v, has := e.counter()
 		none := total == 0 && (!has || (v0ok && v == v0))
 		running, live := false, e.live()
-		if p := eGuard(e.c, "IsHeartbeatRunning", func() { running = e.hm.IsHeartbeatRunning() }); p != "" {
+		if p := eGuard(e.c, "IsHeartbeatRunning", func() { running = e.mgr().IsHeartbeatRunning() }); p != "" {
 			e.c.Violate("call-panics/isrunning", "IsHeartbeatRunning panicked: %s", p)
 			return
 		}
@@ -1283,7 +1319,16 @@ func (e *c16Env) finish() {
 	c.Count("datacopy_refreshes_sampled", int64(len(samples)))
 	e.mu.Lock()
 	c.Count("stream_goroutines", int64(len(e.streams)))
+	nMgr := len(e.managers)
 	e.mu.Unlock()
+	if e.perCall {
+		c.Count("cases_reaching_the_manager_through_the_entity_at_every_call", 1)
+	}
+	if nMgr > 1 {
+		// only counted: the statement speaks of the entity's heartbeat, not of objects; what such streams do is judged
+		// by the checkpoints (they are streams of entity [1])
+		c.Count("cases_in_which_several_manager_objects_ran_streams_of_entity_1", 1)
+	}
 	if e.lost {
 		c.Count("cases_cut_short_because_refreshes_were_not_notified", 1)
 	}
@@ -1519,6 +1564,8 @@ func c16Seq(c *rig.Ctx) {
 	}
 	opt.twinTimeout = c16TwinTimeouts[(c.Index/3+row)%len(c16TwinTimeouts)]
 	opt.late = flavor == "generated" && (c.Index+row)%2 == 0
+	// every second row reaches the heartbeat manager through the entity at every call instead of keeping it
+	opt.perCall = row%2 == 1
 	e := newC16EnvOpt(c, timeout, opt)
 	defer e.close()
 	e.startSampler()
@@ -1756,7 +1803,7 @@ func (e *c16Env) contended(op string, n int, before, after int) (ok bool) {
 			var k, t, j, wb, wa, post int64
 			for k = 0; k < maxCalls && !(halt.Load() && post >= 50); k++ {
 				p0 := phase.Load()
-				r := e.hm.IsHeartbeatRunning()
+				r := e.mgr().IsHeartbeatRunning()
 				p1 := phase.Load()
 				if r {
 					t++
@@ -1873,6 +1920,9 @@ func c16Conc(c *rig.Ctx) {
 	// (and starts) the heartbeat is one of them, 2 = RemoveEntity is one of them, 3 = both
 	variant := c.Index % 4
 	lateAdd, concRemove := variant == 1 || variant == 3, variant >= 2
+	// where the heartbeat is created by one of the concurrent goroutines, the goroutines are also the first to ask the
+	// entity for its heartbeat manager, and every call asks again
+	opt.perCall = lateAdd
 	e := newC16EnvOpt(c, timeout, opt)
 	defer e.close()
 	e.startSampler()
